@@ -84,8 +84,17 @@ pub fn run_chain_with(out: &mut Out, rng: &mut Rng, c: &ChainCfg, what: &str, co
     rx.ev_provision(out, storage);
     rx.ev_provision(out, storage + 1);
 
+    let long_peek = what == "all_ids" && c.fragid % 64 == 3;
     let feed = |out: &mut Out, rx: &mut Rx<DefaultCrc>, wire: &[u8]| {
         rx.ev_peek(out, wire, true);
+        if long_peek {
+            // "presented alone or followed by further bytes": the slice is about 64 KiB long
+            for total in [65535usize, 65536, 65537, 65539, 65545, 131072] {
+                let mut v = wire.to_vec();
+                v.resize(total.max(wire.len()), 0xA5);
+                rx.ev_peek(out, &v, true);
+            }
+        }
         let o = rx.ev_decap(out, wire, vec![]);
         if let Some(b) = o.returned {
             rx.ev_provision_buf(out, b);
